@@ -296,7 +296,11 @@ def controlflow(rng, underflow_p=0.0, symbolic_p=0.0, big_stack_p=0.0, far_p=0.0
                                "ADDMOD", "RETURN", "LOG2", "SHA3"]))
             feats.add("underflow")
         if rng.random() < big_stack_p:
-            a.emit(bytes([0x5f]) * rng.choice([1023, 1024, 1025, 1030]))
+            a.emit(bytes([0x5f]) * rng.choice([1022, 1023, 1024, 1024, 1025, 1030]))
+            # ... and one more instruction at (or next to) the full stack: every way of growing, keeping or shrinking it
+            a.emit(rng.choice([["DUP1"], ["DUP16"], ["DUP7"], ["PUSH0"], [("push", 7, 1)], ["CALLER"], ["PC"], ["MSIZE"],
+                               ["SWAP1"], ["SWAP16"], ["ADD"], ["ISZERO"], ["SLOAD"], ["MLOAD"], ["CALLDATASIZE"],
+                               ["DUP1", "DUP1"], ["POP", "DUP1"], ["GAS"], ["CODESIZE"], ["ADDRESS"]]))
             feats.add("big-stack")
         last = i == nblocks - 1
         r = rng.random()
@@ -403,6 +407,32 @@ def cyclic_types(rng):
             element(s, kind)
             a.emit("SSTORE")
     a.emit("STOP")
+    return a.assemble(), feats
+
+
+def full_stack(rng):
+    """The stack is filled to within a few items of its 1024 limit (by pushes, DUPs or a mix), then a short run of
+    instructions that grow, keep or shrink it is executed at the limit. Returns (code, feats)."""
+    a = evm.Asm()
+    n = rng.choice([1020, 1022, 1023, 1023, 1024, 1024, 1024, 1025])
+    how = rng.choice(["push0", "push1", "dup", "mixed"])
+    if how == "push0":
+        a.emit(bytes([0x5f]) * n)
+    elif how == "push1":
+        a.emit(bytes([0x60, 0x01]) * n)
+    elif how == "dup":
+        a.emit("CALLVALUE", bytes([0x80]) * (n - 1))
+    else:
+        a.emit("CALLER", "CALLVALUE")
+        for _ in range(n - 2):
+            a.emit(rng.choice([bytes([0x5f]), bytes([0x80]), bytes([0x81]), bytes([0x33])]))
+    feats = {"full-stack", "fill:" + how}
+    for _ in range(rng.randint(1, 4)):
+        ins = rng.choice(["DUP1", "DUP2", "DUP16", "PUSH0", "CALLER", "PC", "MSIZE", "GAS", "SWAP1", "SWAP16", "ADD",
+                          "ISZERO", "SLOAD", "MLOAD", "POP", "CALLDATASIZE", "ADDRESS", "EQ"])
+        a.emit(ins)
+        feats.add("at-limit:" + ins)
+    a.emit(rng.choice([["STOP"], [0, 0, "RETURN"], ["POP", "POP", "STOP"]]))
     return a.assemble(), feats
 
 
